@@ -57,11 +57,14 @@ func c01Case(t *testing.T, root *vw.Rng, ci int, tr *vw.Trace) {
 		d.W.Read = 14
 	}
 	rounds := r.PickInt(1, 2, 3)
+	if wide {
+		rounds = r.PickInt(3, 4)
+	}
 	for k := 0; k < rounds; k++ {
 		if wide {
 			// a burst of client operations delivered without faults: the blob gets its tracts and the
 			// clients' caches get entries for tracts far apart before the next random round
-			d.Burst(r.Range(6, 16))
+			d.Burst(r.Range(10, 24))
 		}
 		d.RunRandom(steps / rounds)
 		if r.Chance(1, 2) {
